@@ -773,7 +773,7 @@ func (e *Engine) Describe(prop string) core.Description {
 	switch prop {
 	case "C20":
 		d.Rule = gen + "In 1 of 4 faulty runs the image is served through the io.ReaderAt hook with an I/O error at the k-th read / from an offset, or a short read. Oracle: independent elfref reader over the bytes delivered: success => program memory = loadable segments (available file bytes then zeros), code image = exactly the non-empty executable address-bearing PROGBITS sections, sorted disjoint blocks, Address() probes; none/rel/core, overlapping segments/sections, memsz<filesz must be rejected; an error is always acceptable; no panic. Non-trivial = the loader accepted the file and the reference could judge it; distinct = distinct event-log hashes among those."
-		d.ComponentsReal = []string{"elf.NewParser / VerifNewParserFromReaderAt", "elf.Parser.MachineCode/Memory", "elf.Memory.Address", "debug/elf"}
+		d.ComponentsReal = []string{"elf.NewParser / VerifNewParserFromReaderAt", "elf.Parser.MachineCode/Memory", "elf.Memory.Address", "debug/elf", "the real mltwist binary (1 reader-fault-free run in 16: parseElf of cmd/mltwist/main.go as wired)"}
 	case "C26":
 		d.QuickRuns = 4000
 		d.Rule = gen + "Plus path faults (missing file, directory, empty file, not ELF) and, for the real binary, argument faults (no / two / empty arguments) and stdin not a terminal. 11 of 12 runs execute an in-process replica of main.run() up to consoleui.New with recover() as crash detector; 1 of 12 runs execute the real mltwist binary as a child (stdin = pty, ulimit -v 4 GiB): outcome must be exit status != 0 with a 'mltwist: ' message, or the first screen and prompt appear and quit+ENTER ends it with status 0. Non-trivial = every run that reached a verdict; distinct = distinct event-log hashes."
